@@ -51,6 +51,19 @@ func RawSearchSingleQuery(query *structs.SearchQuery, searchReq *structs.Segment
 			qid, searchCols, err)
 	}
 
+	if err == nil {
+		// A column that this segment has but whose file cannot be opened is not a column
+		// the events lack: no record can be tested, f!=value must not hold for all of them.
+		for cname, colErr := range sharedMultiReader.GetColumnsErrorsMap() {
+			if searchCols[cname] && searchReq.AllPossibleColumns[cname] {
+				queryType = structs.EditQueryTypeForInvalidColumn(queryType)
+				log.Errorf("qid=%d, RawSearchSingleQuery: column %v of segment %v cannot be read, no record of the segment is matched. Error: %v",
+					qid, cname, searchReq.SegmentKey, colErr)
+				break
+			}
+		}
+	}
+
 	defer sharedMultiReader.Close()
 	// call N parallel block managers, each with their own block
 	filterBlockRequestsChan := make(chan *BlockSearchStatus, len(segmentSearch.AllBlockStatus))
